@@ -213,11 +213,29 @@ def prop_ga(case, ctx):
     ctx.nontrivial(case["nodes"] >= 2)
 
 
+@st.composite
+def rollout_cases(draw, tier="quick"):
+    """roll-outs of a generated stochastic controller (C14's trajectory validator, controller policies only)"""
+    from vpm.checks import c14
+    spec = draw(pomdp_specs(max_states=4, absorbing_kinds=("n", "n", "n", "abs", "abs")))
+    f = draw(fsc_specs(spec["m"], spec["k"]))
+    pol = {"kind": "fsc", "act": f["act"], "obs": f["obs"], "init": f["init"]}
+    return {"pomdp": spec, "policy": pol, "start": draw(st.one_of(st.none(), st.integers(0, spec["n"] - 1))),
+            "max_steps": draw(st.integers(0, 10)), "stream": draw(c14.STREAM), "seed": draw(st.integers(0, 10 ** 6))}
+
+
+def prop_rollout(case, ctx):
+    from vpm.checks import c14
+    c14.prop_pomdp_rollout(case, ctx, pfx="C09.rollout")
+
+
 PROPS = [
     Prop("evaluator", lambda tier: eval_cases(tier), prop_evaluator, quick=1500, thorough=30000,
          doc="stochastic_fsc_policy_evaluation_exact vs episodic cross-product evaluation (two reference routes)"),
     Prop("execution", lambda tier: eval_cases(tier), prop_execution, quick=500, thorough=8000,
          doc="executed vs defined probability of every action/observation history up to length 3"),
+    Prop("rollout", lambda tier: rollout_cases(tier), prop_rollout, quick=1200, thorough=25000,
+         doc="executing the controller (run_on): valid steps, episode ends on entering an absorbing state, agent-state updates"),
     Prop("bpi", lambda tier: learner_cases(tier), prop_bpi, quick=60, thorough=1200,
          doc="bounded policy iteration: valid controller, reported value, monotone across iterations (prefix runs)"),
     Prop("ga", lambda tier: learner_cases(tier), prop_ga, quick=150, thorough=3000,
